@@ -157,3 +157,68 @@ def gate_with(state, pred, exc=None):
         except Exception:
             continue
     return out
+
+
+# ------------------------------------------------------------------------------------------------ decision trees
+def alternatives(ff, v, conds=(), depth=0):
+    """All ways a resolved value can have been chosen, as [(conditions, leaf)]: conditional expressions, joins of
+    definitions made under different branch facts, aliases, and subscripts whose object or index is itself a choice
+    are expanded.  A condition is a flow Fact (test, truth).  Bounded: depth 12, 64 alternatives."""
+    import copy as _copy
+    from ..flow import Fact
+    if depth > 12:
+        return [(conds, v)]
+    if isinstance(v, Ref):
+        return alternatives(ff, v.value, conds, depth + 1)
+    if isinstance(v, Phi):
+        out = []
+        for o in v.options:
+            extra = ()
+            st = ff.pre.get(id(getattr(o, 'stmt', None))) if isinstance(o, Ref) else None
+            if st is not None:
+                extra = tuple(st.facts.values())
+            out.extend(alternatives(ff, o, conds + extra, depth + 1))
+            if len(out) > 64:
+                break
+        return out
+    if isinstance(v, ast.IfExp):
+        t = Fact(v.test, True, v.test)
+        f = Fact(v.test, False, v.test)
+        return alternatives(ff, v.body, conds + (t,), depth + 1) + alternatives(ff, v.orelse, conds + (f,), depth + 1)
+    if isinstance(v, ast.Subscript) and getattr(v, 'pkey', None) is None or \
+            (isinstance(v, ast.Subscript) and isinstance(v.value, (Ref, Phi, ast.IfExp))):
+        vs = alternatives(ff, v.value, (), depth + 1)
+        ss = alternatives(ff, v.slice, (), depth + 1)
+        if len(vs) == 1 and len(ss) == 1 and not vs[0][0] and not ss[0][0]:
+            return [(conds, v)]
+        out = []
+        for c1, a in vs:
+            for c2, b in ss:
+                n = _copy.copy(v)
+                n.value, n.slice = a, b
+                n.pkey = None
+                out.append((conds + c1 + c2, n))
+        return out[:64]
+    return [(conds, v)]
+
+
+def leaf_key(n):
+    """'step.to[1]' for a (possibly re-assembled) read of a record entry."""
+    n0 = strip_refs(n) if isinstance(n, Ref) else n
+    k = getattr(n0, 'pkey', None)
+    if k:
+        return k
+    if isinstance(n0, ast.Subscript):
+        base = leaf_key(n0.value)
+        idx = const_value(n0.slice)
+        if base is not None and idx is not None:
+            return f"{base}[{idx!r}]"
+    if isinstance(n0, ast.Attribute):
+        base = leaf_key(n0.value)
+        if base is not None:
+            return f"{base}.{n0.attr}"
+    if isinstance(n0, ast.Name):
+        return n0.id
+    if isinstance(n0, Param):
+        return n0.name
+    return None
